@@ -102,6 +102,8 @@ try:
         try:
             prev = json.load(open(old))
             meta["needs"] = meta.get("needs") or prev.get("needs")
+            if "suite" not in meta and prev.get("suite"):
+                meta["suite"] = dict(prev["suite"], note="from the first confirmation run of this seeded change")
             meta.setdefault("history", prev.get("history", []))
             meta["history"].append({k: prev.get(k) for k in ("at", "checks")})
         except Exception:
